@@ -93,6 +93,15 @@ def main(argv):
         src = workload.native(cfg["seed"])
         rep = workload.make_repr(cfg["repr"], g, cfg.get("decider", "maxdepth"), md, src, gene_length=64)
         prob = SingleObjectiveProblem(fitness, minimize=cfg.get("minimize", False))
+        if cfg.get("multi"):
+            # two coarse objectives: ties with the front and improvements that displace it happen all the time
+            from geneticengine.problems import MultiObjectiveProblem
+
+            def fitness2(p):
+                h = int(fitness(p))
+                return [float(h % 12), float((h // 12) % 3)]
+
+            prob = MultiObjectiveProblem([False, True], fitness2)
         b = EvaluationBudget(cfg["budget"])
         step = None
         if cfg.get("step") == "cx":  # the default step crosses over with probability 0.01: make the operators actually run
